@@ -631,179 +631,244 @@ Proof.
   - exact T3.
 Qed.
 
-(** ** the world *)
-Definition WInv (w : world) : Prop := Forall TreeInv (docs w).
+(** ** the world: a generic preservation theorem
 
+    [P] is any property of a store that the store-level editing functions preserve; then every
+    operation of the model preserves "[P] holds for every document of the world".  Instantiated
+    with the tree invariant below and with tree + order invariant in Proofs/DomOrderInv.v. *)
 Lemma Forall_set_nth {A} (P : A -> Prop) n x l : Forall P l -> P x -> Forall P (set_nth n x l).
 Proof.
   revert l. induction n as [|n IH]; intros l Hl Hx; destruct l as [|y t]; cbn; try constructor;
     inversion Hl; subst; try assumption. apply IH; assumption.
 Qed.
 
-Lemma set_doc_inv w k s : WInv w -> TreeInv s -> WInv (set_doc w k s).
-Proof. intros Hw Hs. unfold WInv, set_doc. cbn. apply Forall_set_nth; assumption. Qed.
+Section Generic.
+  Variable P : store -> Prop.
+  Hypothesis H_ib : forall s r x f, P s -> P (fst (info_insert_before s r x f)).
+  Hypothesis H_ap : forall s r x, P s -> P (fst (info_append s r x)).
+  Hypothesis H_del : forall s r x, P s -> P (fst (info_delete s r x)).
+  Hypothesis H_ra : forall s e name, P s -> P (fst (remove_attribute s e name)).
+  Hypothesis H_san : forall w k s e a, P s -> P (fst (dom_set_attribute_node w k s e a)).
+  Hypothesis H_sv : forall s a d, P s -> has_kind s KAt a = true -> P (fst (set_values s a d)).
+  Hypothesis H_cr : forall s it, P s -> iparent it = None -> ichildren it = [] -> iattrs it = [] -> ikind it <> KDoc ->
+                    P (snd (create s it)).
+  Hypothesis H_rd : forall s n k off cnt d, P s -> P (fst (replace_data s n k off cnt d)).
+  Hypothesis H_id : forall s n k off d, P s -> P (fst (insert_data s n k off d)).
+  Hypothesis H_dd : forall s n off cnt, P s -> P (fst (delete_data s n off cnt)).
+  Hypothesis H_pi : forall s n d, P s -> P (fst (pi_set s n d)).
+  Hypothesis H_st : forall k s n kd off, P s -> P (fst (split_text k s n kd off)).
 
-Lemma doc_at_inv w k s : WInv w -> doc_at w k = Some s -> TreeInv s.
-Proof.
-  intros Hw H. unfold doc_at in H. apply nth_error_In in H. unfold WInv in Hw. rewrite Forall_forall in Hw. apply Hw. exact H.
-Qed.
+  Definition WP (w : world) : Prop := Forall P (docs w).
 
-Lemma on_node_inv w r f :
-  WInv w -> (forall s k, TreeInv s -> kind_of s (snd r) = Some k -> TreeInv (fst (f s k))) -> WInv (fst (on_node w r f)).
-Proof.
-  intros Hw Hf. unfold on_node. destruct (doc_at w (fst r)) as [s|] eqn:D; [|exact Hw].
-  destruct (kind_of s (snd r)) as [k|] eqn:K; [|exact Hw].
-  specialize (Hf s k (doc_at_inv w _ s Hw D) K). destruct (f s k) as [s1 o]. cbn [fst] in *.
-  apply set_doc_inv; assumption.
-Qed.
+  Lemma set_doc_P w k s : WP w -> P s -> WP (set_doc w k s).
+  Proof. intros Hw Hs. unfold WP, set_doc. cbn. apply Forall_set_nth; assumption. Qed.
 
-Lemma on_element_inv w r f :
-  WInv w -> (forall s, TreeInv s -> has_kind s KEl (snd r) = true -> TreeInv (fst (f s))) -> WInv (fst (on_element w r f)).
-Proof.
-  intros Hw Hf. unfold on_element. apply on_node_inv; [exact Hw|]. intros s k T K.
-  destruct k; try exact T. apply Hf; [exact T|]. rewrite has_kind_kind_of, K. reflexivity.
-Qed.
+  Lemma doc_at_P w k s : WP w -> doc_at w k = Some s -> P s.
+  Proof.
+    intros Hw H. unfold doc_at in H. apply nth_error_In in H. unfold WP in Hw. rewrite Forall_forall in Hw. apply Hw. exact H.
+  Qed.
 
-Lemma on_document_inv w r f :
-  WInv w -> (forall s, TreeInv s -> TreeInv (fst (f s))) -> WInv (fst (on_document w r f)).
-Proof.
-  intros Hw Hf. unfold on_document. apply on_node_inv; [exact Hw|]. intros s k T K.
-  destruct k; try exact T. apply Hf. exact T.
-Qed.
+  Lemma on_node_P w r f :
+    WP w -> (forall s k, P s -> kind_of s (snd r) = Some k -> P (fst (f s k))) -> WP (fst (on_node w r f)).
+  Proof.
+    intros Hw Hf. unfold on_node. destruct (doc_at w (fst r)) as [s|] eqn:D; [|exact Hw].
+    destruct (kind_of s (snd r)) as [k|] eqn:K; [|exact Hw].
+    specialize (Hf s k (doc_at_P w _ s Hw D) K). destruct (f s k) as [s1 o]. cbn [fst] in *.
+    apply set_doc_P; assumption.
+  Qed.
 
-Lemma dom_insert_before_inv w r n ref : WInv w -> WInv (fst (dom_insert_before w r n ref)).
-Proof.
-  intros Hw. unfold dom_insert_before. destruct (doc_at w (fst r)) as [s|] eqn:D; [|exact Hw].
-  destruct (kind_in w r) as [k|]; [|exact Hw].
-  destruct (container k); [|exact Hw].
-  destruct (wrong_doc w r n); [exact Hw|].
-  pose proof (doc_at_inv w _ s Hw D) as T.
-  destruct ref as [f|].
-  - destruct (wrong_doc w r f); [exact Hw|].
-    pose proof (info_insert_before_inv s (snd r) (snd n) (snd f) T) as T1.
-    destruct (info_insert_before s (snd r) (snd n) (snd f)) as [s1 [e|]]; cbn [fst] in *.
-    + destruct e; exact Hw.
-    + apply set_doc_inv; assumption.
-  - pose proof (info_append_inv s (snd r) (snd n) T) as T1.
-    destruct (info_append s (snd r) (snd n)) as [s1 [e|]]; cbn [fst] in *; [exact Hw|].
-    apply set_doc_inv; assumption.
-Qed.
+  Lemma on_element_P w r f :
+    WP w -> (forall s, P s -> has_kind s KEl (snd r) = true -> P (fst (f s))) -> WP (fst (on_element w r f)).
+  Proof.
+    intros Hw Hf. unfold on_element. apply on_node_P; [exact Hw|]. intros s k T K.
+    destruct k; try exact T. apply Hf; [exact T|]. rewrite has_kind_kind_of, K. reflexivity.
+  Qed.
 
-Lemma dom_remove_child_inv w r o : WInv w -> WInv (fst (dom_remove_child w r o)).
-Proof.
-  intros Hw. unfold dom_remove_child. destruct (doc_at w (fst r)) as [s|] eqn:D; [|exact Hw].
-  destruct (kind_in w r) as [k|]; [|exact Hw].
-  destruct (container k); [|exact Hw].
-  destruct (wrong_doc w r o); [exact Hw|].
-  pose proof (info_delete_inv s (snd r) (snd o) (doc_at_inv w _ s Hw D)) as T1.
-  destruct (info_delete s (snd r) (snd o)) as [s1 [|]]; cbn [fst] in *; [apply set_doc_inv; assumption | exact Hw].
-Qed.
+  Lemma on_document_P w r f :
+    WP w -> (forall s, P s -> P (fst (f s))) -> WP (fst (on_document w r f)).
+  Proof.
+    intros Hw Hf. unfold on_document. apply on_node_P; [exact Hw|]. intros s k T K.
+    destruct k; try exact T. apply Hf. exact T.
+  Qed.
 
-(** * Main preservation theorem: every operation, whatever its arguments and its outcome *)
+  Lemma factory_P k s it :
+    P s -> iparent it = None -> ichildren it = [] -> iattrs it = [] -> ikind it <> KDoc -> P (fst (factory k s it)).
+  Proof.
+    intros T H1 H2 H3 H4. unfold factory. pose proof (H_cr s it T H1 H2 H3 H4) as H.
+    destruct (create s it) as [i s1]. exact H.
+  Qed.
+
+  Lemma dom_insert_before_P w r n ref : WP w -> WP (fst (dom_insert_before w r n ref)).
+  Proof.
+    intros Hw. unfold dom_insert_before. destruct (doc_at w (fst r)) as [s|] eqn:D; [|exact Hw].
+    destruct (kind_in w r) as [k|]; [|exact Hw].
+    destruct (container k); [|exact Hw].
+    destruct (wrong_doc w r n); [exact Hw|].
+    pose proof (doc_at_P w _ s Hw D) as T.
+    destruct ref as [f|].
+    - destruct (wrong_doc w r f); [exact Hw|].
+      pose proof (H_ib s (snd r) (snd n) (snd f) T) as T1.
+      destruct (info_insert_before s (snd r) (snd n) (snd f)) as [s1 [e|]]; cbn [fst] in *.
+      + destruct e; exact Hw.
+      + apply set_doc_P; assumption.
+    - pose proof (H_ap s (snd r) (snd n) T) as T1.
+      destruct (info_append s (snd r) (snd n)) as [s1 [e|]]; cbn [fst] in *; [exact Hw|].
+      apply set_doc_P; assumption.
+  Qed.
+
+  Lemma dom_remove_child_P w r o : WP w -> WP (fst (dom_remove_child w r o)).
+  Proof.
+    intros Hw. unfold dom_remove_child. destruct (doc_at w (fst r)) as [s|] eqn:D; [|exact Hw].
+    destruct (kind_in w r) as [k|]; [|exact Hw].
+    destruct (container k); [|exact Hw].
+    destruct (wrong_doc w r o); [exact Hw|].
+    pose proof (H_del s (snd r) (snd o) (doc_at_P w _ s Hw D)) as T1.
+    destruct (info_delete s (snd r) (snd o)) as [s1 [|]]; cbn [fst] in *; [apply set_doc_P; assumption | exact Hw].
+  Qed.
+
+  (** every operation, whatever its arguments and its outcome *)
+  Theorem step_P w o : WP w -> WP (fst (step w o)).
+  Proof.
+    intros Hw. destruct o; cbn [step].
+    - (* AppendChild *)
+      destruct (kind_in w r) as [k|]; [|exact Hw]. destruct (node_mut k); [|exact Hw].
+      destruct (exists_in w n); [apply dom_insert_before_P; exact Hw | exact Hw].
+    - (* InsertBefore *)
+      destruct (kind_in w r) as [k|]; [|exact Hw]. destruct (node_mut k); [|exact Hw].
+      destruct (exists_in w n && exists_in w f); [apply dom_insert_before_P; exact Hw | exact Hw].
+    - (* ReplaceChild *)
+      destruct (kind_in w r) as [k|]; [|exact Hw]. destruct (node_mut k); [|exact Hw].
+      destruct (exists_in w n && exists_in w o); [|exact Hw].
+      pose proof (dom_insert_before_P w r n (Some o) Hw) as H1.
+      destruct (dom_insert_before w r n (Some o)) as [w1 oc]. cbn [fst] in H1.
+      destruct oc; try exact H1. apply dom_remove_child_P. exact H1.
+    - (* RemoveChild *)
+      destruct (kind_in w r) as [k|]; [|exact Hw]. destruct (node_mut k); [|exact Hw].
+      destruct (exists_in w o); [apply dom_remove_child_P; exact Hw | exact Hw].
+    - (* SetAttribute *)
+      apply on_element_P; [exact Hw|]. intros s T Ke.
+      destruct (n_attr name) as [[p l]|]; [|exact T].
+      pose proof (H_cr s (new_item KAt p l [] false None) T eq_refl eq_refl eq_refl ltac:(discriminate)) as T1.
+      destruct (create_spec s (new_item KAt p l [] false None)) as [Hi [_ [_ [Hg _]]]].
+      destruct (create s (new_item KAt p l [] false None)) as [a s1]. cbn [fst snd] in *. subst a.
+      assert (Ka : has_kind s1 KAt (next s) = true) by (unfold has_kind; rewrite Hg; reflexivity).
+      pose proof (H_sv s1 (next s) value T1 Ka) as T2.
+      destruct (set_values s1 (next s) value) as [s2 [|]]; cbn [fst] in *; [|exact T2].
+      pose proof (H_san w (fst r) s2 (snd r) (fst r, next s) T2) as T3.
+      destruct (dom_set_attribute_node w (fst r) s2 (snd r) (fst r, next s)) as [s3 oc]. cbn [fst] in T3.
+      destruct oc; exact T3.
+    - (* SetAttributeNode *)
+      destruct (attr_local w a) as [nm|]; [|exact Hw]. apply on_element_P; [exact Hw|]. intros s T _.
+      apply H_san. exact T.
+    - (* RemoveAttribute *)
+      apply on_element_P; [exact Hw|]. intros s T _. cbn [fst]. apply H_ra. exact T.
+    - (* RemoveAttributeNode *)
+      destruct (attr_local w a) as [nm|]; [|exact Hw]. apply on_element_P; [exact Hw|]. intros s T _.
+      destruct (get_attribute_node s (snd r) nm); cbn [fst]; [apply H_ra; exact T | exact T].
+    - (* SetNamedItem *)
+      destruct (attr_local w a) as [nm|]; [|exact Hw]. apply on_element_P; [exact Hw|]. intros s T _.
+      destruct (get_attribute_node s (snd r) nm).
+      + pose proof (H_ra s (snd r) nm T) as T1.
+        pose proof (H_san w (fst r) (fst (remove_attribute s (snd r) nm)) (snd r) a T1) as T2.
+        destruct (dom_set_attribute_node w (fst r) (fst (remove_attribute s (snd r) nm)) (snd r) a) as [s2 oc]. cbn [fst] in T2.
+        destruct oc; exact T2.
+      + pose proof (H_san w (fst r) s (snd r) a T) as T2.
+        destruct (dom_set_attribute_node w (fst r) s (snd r) a) as [s2 oc]. cbn [fst] in T2.
+        destruct oc; exact T2.
+    - (* RemoveNamedItem *)
+      apply on_element_P; [exact Hw|]. intros s T _.
+      destruct (get_attribute_node s (snd r) name); cbn [fst]; [apply H_ra; exact T | exact T].
+    - (* CreateElement *)
+      apply on_document_P; [exact Hw|]. intros s T. destruct (n_elem name) as [[p l]|]; [|exact T].
+      apply factory_P; try reflexivity; [exact T | discriminate].
+    - (* CreateAttribute *)
+      apply on_document_P; [exact Hw|]. intros s T. destruct (n_attr name) as [[p l]|]; [|exact T].
+      apply factory_P; try reflexivity; [exact T | discriminate].
+    - (* CreateTextNode *)
+      apply on_document_P; [exact Hw|]. intros s T. destruct (d_text data); [|exact T].
+      apply factory_P; try reflexivity; [exact T | discriminate].
+    - (* CreateComment *)
+      apply on_document_P; [exact Hw|]. intros s T. destruct (d_comment data); [|exact T].
+      apply factory_P; try reflexivity; [exact T | discriminate].
+    - (* CreateCDataSection *)
+      apply on_document_P; [exact Hw|]. intros s T. destruct (d_cdata data); [|exact T].
+      apply factory_P; try reflexivity; [exact T | discriminate].
+    - (* CreateProcessingInstruction *)
+      apply on_document_P; [exact Hw|]. intros s T.
+      destruct (n_pi target) as [t|]; [|exact T]. destruct (d_pi data) as [[c|]|]; try exact T;
+        (apply factory_P; try reflexivity; [exact T | discriminate]).
+    - (* CreateEntityReference *)
+      apply on_document_P; [exact Hw|]. intros s T. destruct (n_ref name); [|exact T].
+      destruct (entity_known s (n_str name)); [|exact T].
+      apply factory_P; try reflexivity; [exact T | discriminate].
+    - (* CreateDocumentFragment *)
+      apply on_document_P; [exact Hw|]. intros s T. apply factory_P; try reflexivity; [exact T | discriminate].
+    - (* SetNodeValue *)
+      apply on_node_P; [exact Hw|]. intros s k T K. destruct k; try exact T.
+      + pose proof (H_sv s (snd r) v T) as H. rewrite has_kind_kind_of, K in H. specialize (H eq_refl).
+        destruct (set_values s (snd r) v) as [s1 [|]]; exact H.
+      + apply H_rd. exact T.
+      + apply H_rd. exact T.
+      + apply H_pi. exact T.
+      + apply H_rd. exact T.
+    - (* SetData *)
+      apply on_node_P; [exact Hw|]. intros s k T _. destruct (chardata k); [apply H_rd; exact T | exact T].
+    - (* AppendData *)
+      apply on_node_P; [exact Hw|]. intros s k T _. destruct (chardata k); [apply H_id; exact T | exact T].
+    - (* InsertData *)
+      apply on_node_P; [exact Hw|]. intros s k T _. destruct (chardata k); [apply H_id; exact T | exact T].
+    - (* DeleteData *)
+      apply on_node_P; [exact Hw|]. intros s k T _. destruct (chardata k); [apply H_dd; exact T | exact T].
+    - (* ReplaceData *)
+      apply on_node_P; [exact Hw|]. intros s k T _. destruct (chardata k); [apply H_rd; exact T | exact T].
+    - (* SplitText *)
+      apply on_node_P; [exact Hw|]. intros s k T _. destruct k; try exact T; apply H_st; exact T.
+    - (* PISetData *)
+      apply on_node_P; [exact Hw|]. intros s k T _. destruct k; try exact T. apply H_pi. exact T.
+    - (* Query *)
+      exact Hw.
+  Qed.
+
+  Theorem run_P ops : forall w, WP w -> WP (run w ops).
+  Proof.
+    induction ops as [|o t IH]; intros w Hw; cbn; [exact Hw|].
+    apply IH. apply step_P. exact Hw.
+  Qed.
+End Generic.
+
+(** * The tree invariant is preserved by every operation *)
+Definition WInv (w : world) : Prop := WP TreeInv w.
+
 Theorem step_inv w o : WInv w -> WInv (fst (step w o)).
 Proof.
-  intros Hw. destruct o; cbn [step].
-  - (* AppendChild *)
-    destruct (kind_in w r) as [k|]; [|exact Hw]. destruct (node_mut k); [|exact Hw].
-    destruct (exists_in w n); [apply dom_insert_before_inv; exact Hw | exact Hw].
-  - (* InsertBefore *)
-    destruct (kind_in w r) as [k|]; [|exact Hw]. destruct (node_mut k); [|exact Hw].
-    destruct (exists_in w n && exists_in w f); [apply dom_insert_before_inv; exact Hw | exact Hw].
-  - (* ReplaceChild *)
-    destruct (kind_in w r) as [k|]; [|exact Hw]. destruct (node_mut k); [|exact Hw].
-    destruct (exists_in w n && exists_in w o); [|exact Hw].
-    pose proof (dom_insert_before_inv w r n (Some o) Hw) as H1.
-    destruct (dom_insert_before w r n (Some o)) as [w1 oc]. cbn [fst] in H1.
-    destruct oc; try exact H1. apply dom_remove_child_inv. exact H1.
-  - (* RemoveChild *)
-    destruct (kind_in w r) as [k|]; [|exact Hw]. destruct (node_mut k); [|exact Hw].
-    destruct (exists_in w o); [apply dom_remove_child_inv; exact Hw | exact Hw].
-  - (* SetAttribute *)
-    apply on_element_inv; [exact Hw|]. intros s T Ke.
-    destruct (n_attr name) as [[p l]|]; [|exact T].
-    pose proof (create_tree_inv s (new_item KAt p l [] false None) T eq_refl eq_refl eq_refl ltac:(discriminate)) as T1.
-    destruct (create_spec s (new_item KAt p l [] false None)) as [Hi [_ [_ [Hg _]]]].
-    destruct (create s (new_item KAt p l [] false None)) as [a s1]. cbn [fst snd] in *. subst a.
-    assert (Ka : has_kind s1 KAt (next s) = true) by (unfold has_kind; rewrite Hg; reflexivity).
-    pose proof (set_values_inv s1 (next s) value T1 Ka) as T2.
-    destruct (set_values s1 (next s) value) as [s2 [|]]; cbn [fst] in *; [|exact T2].
-    pose proof (dom_set_attribute_node_inv w (fst r) s2 (snd r) (fst r, next s) T2) as T3.
-    destruct (dom_set_attribute_node w (fst r) s2 (snd r) (fst r, next s)) as [s3 oc]. cbn [fst] in T3.
-    destruct oc; exact T3.
-  - (* SetAttributeNode *)
-    destruct (attr_local w a) as [nm|]; [|exact Hw]. apply on_element_inv; [exact Hw|]. intros s T _.
-    apply dom_set_attribute_node_inv. exact T.
-  - (* RemoveAttribute *)
-    apply on_element_inv; [exact Hw|]. intros s T _. cbn [fst]. apply remove_attribute_inv. exact T.
-  - (* RemoveAttributeNode *)
-    destruct (attr_local w a) as [nm|]; [|exact Hw]. apply on_element_inv; [exact Hw|]. intros s T _.
-    destruct (get_attribute_node s (snd r) nm); cbn [fst]; [apply remove_attribute_inv; exact T | exact T].
-  - (* SetNamedItem *)
-    destruct (attr_local w a) as [nm|]; [|exact Hw]. apply on_element_inv; [exact Hw|]. intros s T _.
-    destruct (get_attribute_node s (snd r) nm).
-    + pose proof (remove_attribute_inv s (snd r) nm T) as T1.
-      pose proof (dom_set_attribute_node_inv w (fst r) (fst (remove_attribute s (snd r) nm)) (snd r) a T1) as T2.
-      destruct (dom_set_attribute_node w (fst r) (fst (remove_attribute s (snd r) nm)) (snd r) a) as [s2 oc]. cbn [fst] in T2.
-      destruct oc; exact T2.
-    + pose proof (dom_set_attribute_node_inv w (fst r) s (snd r) a T) as T2.
-      destruct (dom_set_attribute_node w (fst r) s (snd r) a) as [s2 oc]. cbn [fst] in T2.
-      destruct oc; exact T2.
-  - (* RemoveNamedItem *)
-    apply on_element_inv; [exact Hw|]. intros s T _.
-    destruct (get_attribute_node s (snd r) name); cbn [fst]; [apply remove_attribute_inv; exact T | exact T].
-  - (* CreateElement *)
-    apply on_document_inv; [exact Hw|]. intros s T. destruct (n_elem name) as [[p l]|]; [|exact T].
-    apply factory_inv; try reflexivity; [exact T | discriminate].
-  - (* CreateAttribute *)
-    apply on_document_inv; [exact Hw|]. intros s T. destruct (n_attr name) as [[p l]|]; [|exact T].
-    apply factory_inv; try reflexivity; [exact T | discriminate].
-  - (* CreateTextNode *)
-    apply on_document_inv; [exact Hw|]. intros s T. destruct (d_text data); [|exact T].
-    apply factory_inv; try reflexivity; [exact T | discriminate].
-  - (* CreateComment *)
-    apply on_document_inv; [exact Hw|]. intros s T. destruct (d_comment data); [|exact T].
-    apply factory_inv; try reflexivity; [exact T | discriminate].
-  - (* CreateCDataSection *)
-    apply on_document_inv; [exact Hw|]. intros s T. destruct (d_cdata data); [|exact T].
-    apply factory_inv; try reflexivity; [exact T | discriminate].
-  - (* CreateProcessingInstruction *)
-    apply on_document_inv; [exact Hw|]. intros s T.
-    destruct (n_pi target) as [t|]; [|exact T]. destruct (d_pi data) as [[c|]|]; try exact T;
-      (apply factory_inv; try reflexivity; [exact T | discriminate]).
-  - (* CreateEntityReference *)
-    apply on_document_inv; [exact Hw|]. intros s T. destruct (n_ref name); [|exact T].
-    destruct (entity_known s (n_str name)); [|exact T].
-    apply factory_inv; try reflexivity; [exact T | discriminate].
-  - (* CreateDocumentFragment *)
-    apply on_document_inv; [exact Hw|]. intros s T. apply factory_inv; try reflexivity; [exact T | discriminate].
-  - (* SetNodeValue *)
-    apply on_node_inv; [exact Hw|]. intros s k T K. destruct k; try exact T.
-    + pose proof (set_values_inv s (snd r) v T) as H. rewrite has_kind_kind_of, K in H. specialize (H eq_refl).
-      destruct (set_values s (snd r) v) as [s1 [|]]; exact H.
-    + apply replace_data_inv. exact T.
-    + apply replace_data_inv. exact T.
-    + apply pi_set_inv. exact T.
-    + apply replace_data_inv. exact T.
-  - (* SetData *)
-    apply on_node_inv; [exact Hw|]. intros s k T _. destruct (chardata k); [apply replace_data_inv; exact T | exact T].
-  - (* AppendData *)
-    apply on_node_inv; [exact Hw|]. intros s k T _. destruct (chardata k); [apply insert_data_inv; exact T | exact T].
-  - (* InsertData *)
-    apply on_node_inv; [exact Hw|]. intros s k T _. destruct (chardata k); [apply insert_data_inv; exact T | exact T].
-  - (* DeleteData *)
-    apply on_node_inv; [exact Hw|]. intros s k T _. destruct (chardata k); [apply delete_data_inv; exact T | exact T].
-  - (* ReplaceData *)
-    apply on_node_inv; [exact Hw|]. intros s k T _. destruct (chardata k); [apply replace_data_inv; exact T | exact T].
-  - (* SplitText *)
-    apply on_node_inv; [exact Hw|]. intros s k T _. destruct k; try exact T; apply split_text_inv; exact T.
-  - (* PISetData *)
-    apply on_node_inv; [exact Hw|]. intros s k T _. destruct k; try exact T. apply pi_set_inv. exact T.
-  - (* Query *)
-    exact Hw.
+  apply (step_P TreeInv); intros.
+  - apply info_insert_before_inv; assumption.
+  - apply info_append_inv; assumption.
+  - apply info_delete_inv; assumption.
+  - apply remove_attribute_inv; assumption.
+  - apply dom_set_attribute_node_inv; assumption.
+  - apply set_values_inv; assumption.
+  - apply create_tree_inv; assumption.
+  - apply replace_data_inv; assumption.
+  - apply insert_data_inv; assumption.
+  - apply delete_data_inv; assumption.
+  - apply pi_set_inv; assumption.
+  - apply split_text_inv; assumption.
 Qed.
 
-Theorem run_inv ops : forall w, WInv w -> WInv (run w ops).
+Theorem run_inv ops w : WInv w -> WInv (run w ops).
 Proof.
-  induction ops as [|o t IH]; intros w Hw; cbn; [exact Hw|].
-  apply IH. apply step_inv. exact Hw.
+  apply (run_P TreeInv); intros.
+  - apply info_insert_before_inv; assumption.
+  - apply info_append_inv; assumption.
+  - apply info_delete_inv; assumption.
+  - apply remove_attribute_inv; assumption.
+  - apply dom_set_attribute_node_inv; assumption.
+  - apply set_values_inv; assumption.
+  - apply create_tree_inv; assumption.
+  - apply replace_data_inv; assumption.
+  - apply insert_data_inv; assumption.
+  - apply delete_data_inv; assumption.
+  - apply pi_set_inv; assumption.
+  - apply split_text_inv; assumption.
 Qed.
